@@ -77,16 +77,34 @@ def run_call(torch, gpytorch, c):
         return dict(machinery="C19 gcalls: reference shape %s, KernelCalls.tla has %s for %s" % (list(want.shape), exp["shape"], desc))
     G = torch.randn(want.shape, generator=g, dtype=D)
 
-    def grads_of(val, passes=1):
-        """gradients of <G, val> for every parameter; passes = 2: a first pass with another upstream through the same graph, then this one"""
+    # upstream of the INPUT gradients: exp(-r) (nu = 1/2) is not differentiable in the inputs at r = 0: those entries get no weight there
+    with torch.no_grad():
+        r2raw = ref_cov(torch, "rbf", x1, x1 if x2 is None else x2, torch.ones(1, 1, dtype=D), None, s["ldb"], s["diag"])      # exp(-r^2 / 2) = 1 exactly where the points coincide
+    Gin = torch.randn(want.shape, generator=g, dtype=D)
+    if s["fam"] == "matern05":
+        Gin = Gin * (r2raw != 1.0).to(D).expand_as(Gin)
+
+    def grads_of(val, passes=1, inputs=()):
+        """gradients of <G, val> for every parameter; passes = 2: a first pass with another upstream (Gin) through the same graph - it also
+        delivers the gradients of the input tensors that require grad (None = nothing was delivered) - then this one"""
         if not val.requires_grad:
-            return [torch.zeros_like(p) for p in params]
+            return [torch.zeros_like(p) for p in params], [None] * len(inputs)
+        gin = [None] * len(inputs)
         if passes == 2:
-            torch.autograd.grad(val.sum(), params, allow_unused=True, retain_graph=True)
+            first = torch.autograd.grad((val * Gin).sum(), list(params) + list(inputs), allow_unused=True, retain_graph=True)
+            gin = list(first[len(params):])
         gr = torch.autograd.grad((val * G).sum(), params, allow_unused=True)
-        return [torch.zeros_like(p) if x is None else x for p, x in zip(params, gr)]
-    gw = grads_of(want)
+        return [torch.zeros_like(p) if x is None else x for p, x in zip(params, gr)], gin
+    gw = grads_of(want)[0]
     wv = want.detach()
+
+    def want_input_grads(wants):
+        """autograd of the documented formula with respect to the input tensors that require grad"""
+        a = x1.clone().requires_grad_("x1" in wants)
+        b = a if x2 is None else x2.clone().requires_grad_("x2" in wants)
+        val = ref_cov(torch, s["fam"], a, b, base.lengthscale.detach(), kern.outputscale.detach() if s["wrap"] == "scale" else None, s["ldb"], s["diag"])
+        leaves = [t for n, t in (("x1", a), ("x2", b)) if n in wants]
+        return list(torch.autograd.grad((val * Gin).sum(), leaves))
     # nu = 1/2 with x1 == x2: the coincident entries of the generic branch are the root of a rounded squared distance (~1e-8 each, see run_path in c19.py)
     kink = s["fam"] == "matern05" and s["mode"] in ("same", "clone") and not s["diag"]
     vt = 1e-7 if kink else 1e-9
@@ -95,12 +113,14 @@ def run_call(torch, gpytorch, c):
     def ev(force):
         for sp in c05._SPIES:
             sp.n = 0
-        a = x1.clone().requires_grad_(True) if force == "x1grad" else x1
-        b = x2.clone().requires_grad_(True) if (force == "x2grad" and x2 is not None) else x2
+        wants = exp["wants"][force]
+        a = x1.clone().requires_grad_(True) if "x1" in wants else x1
+        b = x2.clone().requires_grad_(True) if ("x2" in wants and x2 is not None) else x2
         with gpytorch.settings.trace_mode(force == "trace"):
             out = kern(a, b, diag=s["diag"], last_dim_is_batch=s["ldb"])
             Kd = out if torch.is_tensor(out) else out.to_dense()
-        return Kd.detach(), (grads_of(Kd, 2) if list(Kd.shape) == exp["shape"] else None), any(sp.n > 0 for sp in c05._SPIES)
+        leaves = [t for n, t in (("x1", a), ("x2", b)) if n in wants]
+        return Kd.detach(), (grads_of(Kd, 2, leaves) if list(Kd.shape) == exp["shape"] else None), any(sp.n > 0 for sp in c05._SPIES)
     runs = {}
     for force in sorted(exp["paths"], key=lambda f: (f != "none", f)):
         pred = exp["paths"][force]
@@ -110,6 +130,7 @@ def run_call(torch, gpytorch, c):
             res.update(ok=False, sig=sig + "/raises", detail="%s %s: %s" % (desc, lab, got))
             return res
         Kd, gr, fast = got
+        gr, gin = gr if gr is not None else (None, None)
         if fast != (pred == "fast"):
             res["drift"] = "KernelCalls.tla predicts the %s branch for %s %s, the code %s the hand-written Function" % (pred, desc, lab, "called" if fast else "did not call")
         if list(Kd.shape) != exp["shape"]:
@@ -125,6 +146,20 @@ def run_call(torch, gpytorch, c):
                 res.update(ok=False, sig=sig + "/grad-vs-formula/" + n.split(".")[-1], detail="%s %s: gradient of %s differs from autograd of the documented formula: %s; got %s, formula %s" % (
                     desc, lab, n, why, [float("%.6g" % v) for v in a_.reshape(-1)[:6]], [float("%.6g" % v) for v in b_.reshape(-1)[:6]]))
                 return res
+        # every input tensor that requires grad is DELIVERED the derivative of the documented function (KernelCalls.tla: KCWants)
+        wants = [n for n in ("x1", "x2") if n in exp["wants"][force]]
+        if wants:
+            for n, a_, b_ in zip(wants, gin, want_input_grads(wants)):
+                if a_ is None and float(b_.abs().max()) <= 1e-10:
+                    continue                          # the documented function does not depend on this tensor here (diag of k(x, x)): nothing to deliver
+                if a_ is None:
+                    res.update(ok=False, sig=sig + "/input-grad-missing/" + n, detail="%s %s: %s requires grad (%s) and NO gradient is delivered for it (None); the documented function has d/d%s with max |.| = %.3g" % (
+                        desc, lab, n, "only %s" % n if len(wants) == 1 else "x1 and x2", n, float(b_.abs().max())))
+                    return res
+                ok, why = core.close(a_, b_, 1e-7, 1e-10)
+                if not ok:
+                    res.update(ok=False, sig=sig + "/input-grad-vs-formula/" + n, detail="%s %s: gradient delivered for %s differs from autograd of the documented formula: %s" % (desc, lab, n, why))
+                    return res
         runs[force] = (Kd, gr)
     if "none" in runs:
         for force, (Kd, gr) in runs.items():
@@ -202,11 +237,35 @@ def ln_tol(z):
     return 2e-3 if z >= -2.5 else 1e-4 if z >= -5 else 1e-7
 
 
+INPUTS = {"rbfcov": ["x1", "x2", "lengthscale"], "materncov": ["x1", "x2", "lengthscale"], "lncdf": ["z"], "nat2muvar": ["natural_vec", "natural_mat"],
+          "trilnat2muvar": ["natural_vec", "natural_tril_mat"], "ngdinterp": ["interp_term", "natural_vec", "natural_mat"]}
+HAS_GRAD = {fn: (["lengthscale"] if fn in ("rbfcov", "materncov") else v) for fn, v in INPUTS.items()}
+
+
+def needs_of(c):
+    """the inputs that require grad (BackwardOps.tla: rg), in the order of the Function's signature; cases of rounds 1-2 carry no rg: the base set"""
+    fn = c["fn"]
+    rg = c.get("rg")
+    if rg is None:
+        return list(HAS_GRAD[fn])
+    if not rg or any(n not in INPUTS[fn] for n in rg):
+        raise core.Machinery("C19 gmachine: rg=%r is not a non-empty subset of the inputs of %s" % (rg, fn))
+    return [n for n in INPUTS[fn] if n in rg]
+
+
 class Subject:
-    """one hand-written Function with a fixed input.  forward() runs the REAL code once on fresh leaves and returns (leaves, outs);
+    """one hand-written Function with a fixed input.  names = the inputs that require grad (every other input is a constant / frozen);
+    forward() runs the REAL code once on fresh leaves and returns (leaves, outs), leaves aligned with names;
     check(us, grads, slack) compares the delivered vector-Jacobian product for the upstream tensors us (one per output) with the derivative of the forward"""
     node_name = None
     lower_out = ()          # outputs that are lower triangular by construction: upstream gradients are masked accordingly
+    names = ()
+
+    def mask(self, us):
+        """upstream entries that carry no information about the derivative are zeroed"""
+        for i in self.lower_out:
+            us[i] = self.torch.tril(us[i])
+        return us
 
     def forward(self):
         raise NotImplementedError
@@ -225,7 +284,11 @@ class CovSubject(Subject):
         self.x2[..., 0, :] = self.x1[..., 1, :]                       # r = 0 entries
         self.ls0 = UD(g, 0.5, 1.5, *bs, 1, 1)
         self.bs = bs
-        self.node_name = "RBFCovarianceBackward" if self.fam == "rbf" else "MaternCovarianceBackward"
+        self.names = needs_of(c)
+        self.x_wanted = any(n in self.names for n in ("x1", "x2"))
+        # through the kernel a call in which x1 or x2 requires grad is served by the generic branch: no node of the Function is expected
+        self.node_name = None if (c["api"] == "public" and self.x_wanted) else ("RBFCovarianceBackward" if self.fam == "rbf" else "MaternCovarianceBackward")
+        self.coincident = _pairsq(self.x1, self.x2) == 0
         if c["api"] == "public":
             K = gpytorch.kernels
             self.kernel = (K.RBFKernel(batch_shape=torch.Size(bs)) if self.fam == "rbf" else K.MaternKernel(nu=NU[self.fam], batch_shape=torch.Size(bs))).to(torch.float64)
@@ -236,19 +299,28 @@ class CovSubject(Subject):
     def forward(self):
         torch = self.torch
         from gpytorch.functions import MaternCovariance, RBFCovariance
+        t = dict(x1=self.x1.clone().requires_grad_("x1" in self.names), x2=self.x2.clone().requires_grad_("x2" in self.names))
         if self.c["api"] == "function":
-            ls = self.ls0.clone().requires_grad_(True)
+            t["lengthscale"] = self.ls0.clone().requires_grad_("lengthscale" in self.names)
             if self.fam == "rbf":
-                out = RBFCovariance.apply(self.x1, self.x2, ls, _pairsq)
+                out = RBFCovariance.apply(t["x1"], t["x2"], t["lengthscale"], _pairsq)
             else:
-                out = MaternCovariance.apply(self.x1, self.x2, ls, NU[self.fam], lambda a, b: _pairsq(a, b).sqrt())
-            return [ls], [out]
+                out = MaternCovariance.apply(t["x1"], t["x2"], t["lengthscale"], NU[self.fam], lambda a, b: _pairsq(a, b).sqrt())
+            return [t[n] for n in self.names], [out]
         self.kernel.raw_lengthscale.grad = None
-        return [self.kernel.raw_lengthscale], [self.kernel(self.x1, self.x2).to_dense()]
+        self.kernel.raw_lengthscale.requires_grad_("lengthscale" in self.names)
+        t["lengthscale"] = self.kernel.raw_lengthscale
+        return [t[n] for n in self.names], [self.kernel(t["x1"], t["x2"]).to_dense()]
+
+    def mask(self, us):
+        # exp(-r) (nu = 1/2) is not differentiable in the INPUTS at r = 0: no weight on those entries when an input requires grad
+        if self.fam == "matern05" and self.x_wanted:
+            us[0] = us[0] * (~self.coincident).to(us[0].dtype)
+        return us
 
     def functional(self):
         from gpytorch.functions import MaternCovariance, RBFCovariance
-        if self.c["api"] != "function":
+        if self.c["api"] != "function" or self.names != ["lengthscale"]:
             return None
         if self.fam == "rbf":
             return (lambda ls: RBFCovariance.apply(self.x1, self.x2, ls, _pairsq)), [self.ls0.clone()]
@@ -256,24 +328,31 @@ class CovSubject(Subject):
 
     def _ref(self, us):
         torch = self.torch
+        t = dict(x1=self.x1.clone().requires_grad_("x1" in self.names), x2=self.x2.clone().requires_grad_("x2" in self.names))
         if self.c["api"] == "function":
-            leaf = self.ls0.clone().requires_grad_(True)
-            ls = leaf
+            t["lengthscale"] = self.ls0.clone().requires_grad_("lengthscale" in self.names)
+            ls = t["lengthscale"]
         else:
-            leaf = self.raw0.clone().requires_grad_(True)
-            ls = self.kernel.raw_lengthscale_constraint.transform(leaf)
-        r2 = _pairsq(self.x1, self.x2)
+            t["lengthscale"] = self.raw0.clone().requires_grad_("lengthscale" in self.names)
+            ls = self.kernel.raw_lengthscale_constraint.transform(t["lengthscale"])
+        r2 = _pairsq(t["x1"], t["x2"])
         if self.fam == "rbf":
             ref = torch.exp(-0.5 * r2 / ls ** 2)
         else:
             nu = NU[self.fam]
-            s = math.sqrt(2 * nu) * r2.sqrt() / ls        # r is taken from the inputs: differentiable in the lengthscale also at r = 0
+            # r is taken from the inputs: differentiable in the lengthscale also at r = 0; in the inputs the r = 0 entries are stationary (nu > 1/2) / carry no weight (nu = 1/2)
+            pos = r2 > 0
+            r = torch.where(pos, torch.where(pos, r2, torch.ones_like(r2)).sqrt(), torch.zeros_like(r2)) if self.x_wanted else r2.sqrt()
+            s = math.sqrt(2 * nu) * r / ls
             ref = (1 if nu == 0.5 else (1 + s) if nu == 1.5 else (1 + s + s * s / 3)) * torch.exp(-s)
-        return torch.autograd.grad((ref * us[0]).sum(), leaf)[0]
+        return torch.autograd.grad((ref * us[0]).sum(), [t[n] for n in self.names])
 
     def check(self, us, grads, slack=None):
-        ok, why = core.close(grads[0], self._ref(us), 1e-7, 1e-10)
-        return ok, "lengthscale-grad", "d/d %s: %s" % ("lengthscale" if self.c["api"] == "function" else "raw_lengthscale", why)
+        for n, a, b in zip(self.names, grads, self._ref(us)):
+            ok, why = core.close(a, b, 1e-7, 1e-10)
+            if not ok:
+                return False, n + "-grad", "d/d %s: %s" % (n if (self.c["api"] == "function" or n != "lengthscale") else "raw_lengthscale", why)
+        return True, "", ""
 
 
 class CdfSubject(Subject):
@@ -294,6 +373,7 @@ class CdfSubject(Subject):
         mpmath.mp.dps = 40
         self.true = torch.tensor([float(mpmath.npdf(mpmath.mpf(z)) / mpmath.ncdf(mpmath.mpf(z))) for z in zs], dtype=torch.float64).reshape(shape)
         self.rt = torch.tensor([ln_tol(z) for z in zs], dtype=torch.float64).reshape(shape)
+        self.names = needs_of(c)
 
     def forward(self):
         from gpytorch.functions import log_normal_cdf
@@ -338,6 +418,8 @@ class NatSubject(Subject):
         self.Cm = torch.tril(U(g, -0.6, 0.6, *bs, M, M), -1) + torch.diag_embed(U(g, 0.7, 1.6, *bs, M))
         self.t1 = U(g, -1.5, 1.5, *bs, M)
         self.node_name = "_TrilNaturalToMuVarSqrtBackward" if self.tril else "_NaturalToMuVarSqrtBackward"
+        self.names = needs_of(c)
+        self.second = INPUTS[c["fn"]][1]
         self.second0 = self.Cm if self.tril else -0.5 * self.Cm @ self.Cm.transpose(-1, -2)
         self.lower_out = (1,) if c["api"] == "function" else ()
         if c["api"] == "public":
@@ -353,15 +435,17 @@ class NatSubject(Subject):
         if self.c["api"] == "function":
             from gpytorch.variational.natural_variational_distribution import _NaturalToMuVarSqrt
             from gpytorch.variational.tril_natural_variational_distribution import _TrilNaturalToMuVarSqrt
-            a, b = self.t1.clone().requires_grad_(True), self.second0.clone().requires_grad_(True)
+            a, b = self.t1.clone().requires_grad_("natural_vec" in self.names), self.second0.clone().requires_grad_(self.second in self.names)
             mu, L = (_TrilNaturalToMuVarSqrt if self.tril else _NaturalToMuVarSqrt).apply(a, b)
-            return [a, b], [mu, L]
+            return [t for n, t in (("natural_vec", a), (self.second, b)) if n in self.names], [mu, L]
         vd = self.vd
         p2 = vd.natural_tril_mat if self.tril else vd.natural_mat
         vd.natural_vec.grad = None
         p2.grad = None
+        vd.natural_vec.requires_grad_("natural_vec" in self.names)          # a parameter that does not train is frozen
+        p2.requires_grad_(self.second in self.names)
         q = vd()
-        return [vd.natural_vec, p2], [q.mean, q.covariance_matrix]
+        return [t for n, t in (("natural_vec", vd.natural_vec), (self.second, p2)) if n in self.names], [q.mean, q.covariance_matrix]
 
     def functional(self):
         if self.c["api"] != "function":
@@ -369,7 +453,11 @@ class NatSubject(Subject):
         from gpytorch.variational.natural_variational_distribution import _NaturalToMuVarSqrt
         from gpytorch.variational.tril_natural_variational_distribution import _TrilNaturalToMuVarSqrt
         F = _TrilNaturalToMuVarSqrt if self.tril else _NaturalToMuVarSqrt
-        return (lambda a, b: F.apply(a, b)), [self.t1.clone(), self.second0.clone()]
+        if len(self.names) == 2:
+            return (lambda a, b: F.apply(a, b)), [self.t1.clone(), self.second0.clone()]
+        if self.names == ["natural_vec"]:
+            return (lambda a: F.apply(a, self.second0.clone())), [self.t1.clone()]
+        return (lambda b: F.apply(self.t1.clone(), b)), [self.second0.clone()]
 
     def check(self, us, grads, slack=None):
         torch = self.torch
@@ -377,15 +465,20 @@ class NatSubject(Subject):
         e2 = (self.S + self.mu.unsqueeze(-1) @ self.mu.unsqueeze(-2)).clone().requires_grad_(True)
         r1, r2 = torch.autograd.grad(_nat_loss(torch, e1, e2, us, self.c["api"] == "function"), (e1, e2))
         r2 = 0.5 * (r2 + r2.transpose(-1, -2))
-        ok, why = core.close(grads[0], r1, 1e-7, 1e-10)
-        if not ok:
-            return False, "natural_vec-grad", "gradient delivered to natural_vec is not d loss / d eta1: %s" % why
+        got = dict(zip(self.names, grads))
+        if "natural_vec" in got:
+            ok, why = core.close(got["natural_vec"], r1, 1e-7, 1e-10)
+            if not ok:
+                return False, "natural_vec-grad", "gradient delivered to natural_vec%s is not d loss / d eta1: %s" % ("" if len(got) == 2 else " (%s does not require grad)" % self.second, why)
+        if self.second not in got:
+            return True, "", ""
+        g2 = got[self.second]
         if not self.tril:
-            ok, why = core.close(grads[1], r2, 1e-7, 1e-10)
+            ok, why = core.close(g2, r2, 1e-7, 1e-10)
             return ok, "natural_mat-grad", "gradient delivered to natural_mat is not d loss / d eta2: %s" % why
-        lhs = grads[1].transpose(-1, -2) @ self.Cm + self.Cm.transpose(-1, -2) @ grads[1]
+        lhs = g2.transpose(-1, -2) @ self.Cm + self.Cm.transpose(-1, -2) @ g2
         ok, why = core.close(lhs, -2 * r2, 1e-7, 1e-10)
-        low = bool((torch.triu(grads[1], 1).abs() <= 1e-12).all())
+        low = bool((torch.triu(g2, 1).abs() <= 1e-12).all())
         return ok and low, "natural_tril_mat-grad", "gradient delivered to natural_tril_mat is not the tangent of C along the natural gradient: %s%s" % (why, "" if low else " (not lower triangular)")
 
 
@@ -401,23 +494,29 @@ class CiqSubject(Subject):
         self.prec = Cm @ Cm.transpose(-1, -2)
         self.t1 = U(g, -1, 1, *bs, M)
         self.it0 = U(g, -1, 1, *bs, M, n)
+        self.names = needs_of(c)
+
+    def _inputs(self):
+        return dict(interp_term=self.it0.clone(), natural_vec=self.t1.clone(), natural_mat=(-0.5 * self.prec).clone())
 
     def forward(self):
         from gpytorch.variational.ciq_variational_strategy import _NgdInterpTerms
         gp = self.gp
-        it, nv, nm = self.it0.clone().requires_grad_(True), self.t1.clone().requires_grad_(True), (-0.5 * self.prec).clone().requires_grad_(True)
+        t = {n: v.requires_grad_(n in self.names) for n, v in self._inputs().items()}
         with gp.settings.cg_tolerance(1e-14), gp.settings.eval_cg_tolerance(1e-14), gp.settings.max_cg_iterations(200):
-            mean, var, kl = _NgdInterpTerms.apply(it, nv, nm)
-        return [it, nv, nm], [mean, var, kl]
+            mean, var, kl = _NgdInterpTerms.apply(t["interp_term"], t["natural_vec"], t["natural_mat"])
+        return [t[n] for n in self.names], [mean, var, kl]
 
     def functional(self):
         from gpytorch.variational.ciq_variational_strategy import _NgdInterpTerms
         gp = self.gp
+        const = self._inputs()
 
-        def f(it, nv, nm):
+        def f(*args):
+            t = dict(const, **dict(zip(self.names, args)))
             with gp.settings.cg_tolerance(1e-14), gp.settings.eval_cg_tolerance(1e-14), gp.settings.max_cg_iterations(200):
-                return _NgdInterpTerms.apply(it, nv, nm)
-        return f, [self.it0.clone(), self.t1.clone(), (-0.5 * self.prec).clone()]
+                return _NgdInterpTerms.apply(t["interp_term"], t["natural_vec"], t["natural_mat"])
+        return f, [const[n].clone() for n in self.names]
 
     def check(self, us, grads, slack=None):
         torch = self.torch
@@ -431,9 +530,9 @@ class CiqSubject(Subject):
         var = (it * (Sg @ it)).sum(-2)
         kl = 0.5 * (-torch.logdet(Sg) + Sg.diagonal(dim1=-1, dim2=-2).sum(-1) + (e1 * e1).sum(-1) - self.M)
         r = torch.autograd.grad((us[0] * mean).sum() + (us[1] * var).sum() + (us[2] * kl).sum(), (it, e1, e2))
-        r = (r[0], r[1], 0.5 * (r[2] + r[2].transpose(-1, -2)))
-        for lab, a, b in zip(("interp_term", "natural_vec", "natural_mat"), grads, r):
-            ok, why = core.close(a, b, CIQ_RTOL, 1e-9)
+        want = dict(interp_term=r[0], natural_vec=r[1], natural_mat=0.5 * (r[2] + r[2].transpose(-1, -2)))
+        for lab, a in zip(self.names, grads):
+            ok, why = core.close(a, want[lab], CIQ_RTOL, 1e-9)
             if not ok:
                 return False, "grad-" + lab, "gradient w.r.t. %s: %s" % (lab, why)
         return True, "", ""
@@ -455,7 +554,7 @@ def make_subject(torch, gpytorch, c, g):
 # =====================================================================================================================================
 # gmachine: one history
 # =====================================================================================================================================
-def upstream(torch, kind, outs, g, step, lower=()):
+def upstream(torch, kind, outs, g, step, mask=None):
     """the upstream gradient tensors (one per output) of one pass"""
     D = torch.float64
     us = []
@@ -474,19 +573,22 @@ def upstream(torch, kind, outs, g, step, lower=()):
             pos -= n
     else:
         raise core.Machinery("C19 gmachine: unknown upstream %r" % kind)
-    for i in lower:
-        us[i] = torch.tril(us[i])
-    return us
+    return mask(us) if mask is not None else us
 
 
-def one_hots(torch, outs, lower=()):
+def one_hots(torch, outs, mask=None):
     for oi, o in enumerate(outs):
         for k in range(o.numel()):
             us = [torch.zeros(t.shape, dtype=torch.float64) for t in outs]
             us[oi].view(-1)[k] = 1.0
-            if oi in lower and float(torch.tril(us[oi]).abs().sum()) == 0.0:
-                continue                    # an entry above the diagonal of a lower-triangular output is constant
+            if mask is not None and float(mask([u.clone() for u in us])[oi].abs().sum()) == 0.0:
+                continue                    # an entry above the diagonal of a lower-triangular output is constant (also: a kink of exp(-r) when an input requires grad)
             yield oi, k, us
+
+
+def _missing(subj, got):
+    """the inputs that require grad and were delivered nothing"""
+    return [n for n, t in zip(subj.names, got) if t is None]
 
 
 def hist_desc(hist):
@@ -516,19 +618,24 @@ def run_history(torch, gpytorch, subj_factory, hist, seed, sig, desc, case, key)
         res["drift"] = "%s: no %s node in the graph of the forward (the hand-written Function was not used)" % (desc, subj.node_name)
     snap0 = snapshot(torch, node) if node is not None else None
     impure = None
+    if len(leaves) != len(subj.names) or not all(l.requires_grad for l in leaves):
+        return dict(machinery="C19 gmachine: %s: leaves do not match the inputs that require grad %s" % (desc, subj.names))
     for j, h in enumerate(hist, 1):
-        us = upstream(torch, h["u"], outs, g, j, subj.lower_out)
+        us = upstream(torch, h["u"], outs, g, j, subj.mask)
 
         slack = [None] * len(leaves)       # rounding of the subtraction that recovers one pass from an accumulated .grad
 
         def deliver(ls_, os_, how):
             if how == "accum":
                 before = [torch.zeros_like(l) if l.grad is None else l.grad.detach().clone() for l in ls_]
+                was = [l.grad is not None for l in ls_]
                 torch.autograd.backward(os_, us, retain_graph=True)
                 for i, (l, b) in enumerate(zip(ls_, before)):
-                    slack[i] = 4.5e-16 * torch.maximum(l.grad.detach().abs(), b.abs())
-                return [l.grad.detach() - b for l, b in zip(ls_, before)]
-            return [t.detach() for t in torch.autograd.grad(os_, ls_, us, retain_graph=(how != "free"))]
+                    if l.grad is not None:
+                        slack[i] = 4.5e-16 * torch.maximum(l.grad.detach().abs(), b.abs())
+                # a leaf whose .grad is still None after the very first accumulation was delivered nothing
+                return [None if (l.grad is None and not w) else (l.grad.detach() - b) for l, b, w in zip(ls_, before, was)]
+            return [None if t is None else t.detach() for t in torch.autograd.grad(os_, ls_, us, retain_graph=(how != "free"), allow_unused=True)]
         us0 = [u.clone() for u in us]
         ok, got = core.guarded(deliver, leaves, outs, h["how"])
         nth = "pass %d of %d (%s, upstream %s)" % (j, len(hist), h["how"], h["u"])
@@ -536,11 +643,15 @@ def run_history(torch, gpytorch, subj_factory, hist, seed, sig, desc, case, key)
             return fail("raises", "%s: %s" % (nth, got))
         if not all(torch.equal(a, b) for a, b in zip(us, us0)):
             return fail("upstream-modified", "%s wrote to the upstream gradient it was handed (other consumers of that gradient see the change)" % nth)
+        miss = _missing(subj, got)
+        got = [torch.zeros_like(l) if t is None else t for l, t in zip(leaves, got)]             # None = "does not depend on it": right exactly when the derivative is zero
         ok, what, why = subj.check(us, got, slack)
+        if not ok and miss:
+            return fail("needs/grad-missing/" + miss[0], "%s: inputs requiring grad = %s; NO gradient (None) is delivered for %s, whose derivative is not zero: %s" % (nth, subj.names, miss, why))
         if not ok:
             return fail(("first-pass/" if j == 1 else "later-pass/") + what, "%s does not deliver upstream . dF(x): %s%s" % (nth, why, " [an earlier pass: %s]" % impure if impure else ""))
         # (ii) the same upstream through a fresh graph of the same forward
-        ok, fresh = core.guarded(lambda: (lambda fw2: [t.detach() for t in torch.autograd.grad(fw2[1], fw2[0], us)])(subj.forward()))
+        ok, fresh = core.guarded(lambda: (lambda fw2: [torch.zeros_like(l) if t is None else t.detach() for l, t in zip(fw2[0], torch.autograd.grad(fw2[1], fw2[0], us, allow_unused=True))])(subj.forward()))
         if not ok:
             return fail("raises", "fresh graph for %s: %s" % (nth, fresh))
         for a, b in zip(got, fresh):
@@ -577,7 +688,7 @@ def run_jacobian(torch, subj, res, fail):
         outs = list(outs) if isinstance(outs, (tuple, list)) else [outs]
         if not isinstance(J[0], (tuple, list)):
             J = (J,)
-        for oi, k, us in one_hots(torch, outs, subj.lower_out):
+        for oi, k, us in one_hots(torch, outs, subj.mask):
             got = [J[oi][i].reshape(outs[oi].numel(), *inputs[i].shape)[k] for i in range(len(inputs))]
             ok, what, why = subj.check(us, got)
             if not ok:
@@ -587,22 +698,59 @@ def run_jacobian(torch, subj, res, fail):
         return fail("raises", "forward: %s" % fw)
     leaves, outs = fw
     n = 0
-    for oi, k, us in one_hots(torch, outs, subj.lower_out):
+    for oi, k, us in one_hots(torch, outs, subj.mask):
         n += 1
-        ok, got = core.guarded(lambda: [t.detach() for t in torch.autograd.grad(outs, leaves, us, retain_graph=True)])
+        ok, got = core.guarded(lambda: [None if t is None else t.detach() for t in torch.autograd.grad(outs, leaves, us, retain_graph=True, allow_unused=True)])
         if not ok:
             return fail("raises", "per-output gradient (output %d, element %d): %s" % (oi, k, got))
+        miss = _missing(subj, got)
+        got = [torch.zeros_like(l) if t is None else t for l, t in zip(leaves, got)]
         ok, what, why = subj.check(us, got)
+        if not ok and miss:
+            return fail("needs/grad-missing/" + miss[0], "per-output gradient of output %d element %d: inputs requiring grad = %s; NO gradient (None) is delivered for %s, whose derivative is not zero: %s" % (oi, k, subj.names, miss, why))
         if not ok:
             return fail("jacobian-row/" + what, "per-output gradient of output %d element %d (pass %d through the graph): %s" % (oi, k, n, why))
     return res
 
 
+def run_refused(torch, gpytorch, c, sig, desc, key):
+    """BackwardOps.tla: the bare covariance Function is asked for a gradient it has no derivative for (x1 / x2): the forward must refuse loudly.  A call
+    that is accepted must deliver the complete derivative to EVERY input that requires grad - a silent None is the violation"""
+    g = torch.Generator().manual_seed(c["seed"])
+    res = dict(key=key, ok=True, nontrivial=True, case=c)
+    ok, subj = core.guarded(make_subject, torch, gpytorch, c["cell"], g)
+    if not ok:
+        res.update(ok=False, sig=sig + "/raises", detail="%s: set-up: %s" % (desc, subj))
+        return res
+    ok, fw = core.guarded(subj.forward)
+    if not ok:
+        return res                                    # refused in the forward, as the spec says
+    leaves, outs = fw
+    us = upstream(torch, "randA", outs, g, 1, subj.mask)
+    ok, got = core.guarded(lambda: list(torch.autograd.grad(outs, leaves, us, allow_unused=True)))
+    if not ok:
+        return res                                    # refused in the backward: still loud
+    miss = _missing(subj, got)
+    ok, what, why = subj.check(us, [torch.zeros_like(l) if t is None else t.detach() for l, t in zip(leaves, got)])
+    if not ok and miss:
+        res.update(ok=False, sig=sig + "/needs/grad-missing/" + miss[0], detail="%s: inputs requiring grad = %s: the call is accepted and NO gradient (None) is delivered for %s, whose derivative is not zero: %s" % (
+            desc, subj.names, miss, why))
+        return res
+    if not ok:
+        res.update(ok=False, sig=sig + "/needs/" + what, detail="%s: inputs requiring grad = %s: the call is accepted and does not deliver upstream . dF(x): %s" % (desc, subj.names, why))
+        return res
+    res["drift"] = "BackwardOps.tla: %s with inputs requiring grad = %s is refused by the forward; the code accepted the call (and delivered the right gradients)" % (desc, subj.names)
+    return res
+
+
 def run_mach(torch, gpytorch, c):
     case, hist = c["cell"], c["hist"]
-    desc = "%s via %s batch=%s%s%s%s" % (case["fn"], "Function.apply" if case["api"] == "function" else "the public object", case["batch"],
-                                        " nu=%s" % NU2[case["nu2"]] if case["nu2"] else "", " z class=%s" % case["zc"] if case["zc"] != "-" else "", " M=%d" % case["M"] if case["M"] else "")
+    desc = "%s via %s batch=%s%s%s%s%s" % (case["fn"], "Function.apply" if case["api"] == "function" else "the public object", case["batch"],
+                                          " nu=%s" % NU2[case["nu2"]] if case["nu2"] else "", " z class=%s" % case["zc"] if case["zc"] != "-" else "", " M=%d" % case["M"] if case["M"] else "",
+                                          " requires_grad=%s" % needs_of(case) if case.get("rg") is not None and needs_of(case) != HAS_GRAD[case["fn"]] else "")
     sig = "C19/machine/%s/%s" % (case["fn"] + ("-nu%s" % NU2[case["nu2"]] if case["nu2"] else ""), case["api"])
+    if c.get("refused"):
+        return run_refused(torch, gpytorch, c, sig, desc, ["mach", case, "refused"])
     r = run_history(torch, gpytorch, lambda g: make_subject(torch, gpytorch, case, g), hist, c["seed"], sig, desc, c, ["mach", case, [[h["u"], h["how"]] for h in hist]])
     if r.get("ok") and c["seed"] % 211 == 0:
         r["sample"] = dict(function=desc, history=hist_desc(hist), verdict="every pass = upstream . dF(x); context unchanged")
